@@ -275,8 +275,12 @@ def oracleSigC05Seq (rate nSamples : Nat) (txs : List (List Byte)) (evs : List S
         | some b1, some b2 =>
           let others := bursts.any (fun b => b.bytes.take text.length != text ∧ b.t + 2 * rate > b1.t ∧ b.t < b2.t + 2 * rate)
           let reportedAgain := outs.any (fun p => decide (p.t > o.t) && (match p.msg with | .som t2 _ _ => t2 == text | _ => false))
+          -- the one known way this happens (F8): before the repeat was released, the burst of ANOTHER header arrived
+          -- and took the single pending slot (ranked by voting count); that header is then reported instead
+          let otherSom := outs.any (fun p => decide (p.t > b2.t) && decide (p.t < b2.t + 8 * rate)
+            && (match p.msg with | .som t2 _ _ => t2 != text | _ => false))
           if again.length ≥ 2 ∧ !others ∧ b2.t + 2 * rate ≤ lastT ∧ !reportedAgain then
-            some s!"the message reported at sample {o.t} was carried again by {again.length} bursts after the suppression window (first at sample {b1.t}) but was not reported again"
+            some s!"the message reported at sample {o.t} was carried again by {again.length} bursts after the suppression window (first at sample {b1.t}) but was not reported again{if otherSom then " [cause: the single pending slot was taken by another header before the repeat was released]" else ""}"
           else none
         | _, _ => none
       | _ => none)
